@@ -512,9 +512,14 @@ func checkFile(t *T, f *ach.File, mode int) {
 	class += fmt.Sprintf("/numbering=%d", mode)
 	in := snapshot(f)
 	input := FileInput(f)
-	t.Case(key, class, len(in.entries) > 0)
 
 	res, done := segment(f)
+	outcome := "/segmented"
+	if !done || res.panic != "" || res.err != nil {
+		outcome = "/not-segmented"
+	}
+	t.Case(key, class+outcome, len(in.entries) > 0)
+
 	if !done {
 		t.Fail("C11/hang", "SegmentFile did not return within 20s", input, "no result", "credit and debit file")
 		return
@@ -562,10 +567,10 @@ func checkFile(t *T, f *ach.File, mode int) {
 
 	// (2) multiset of entries, (3) batch identification travelling with each entry
 	all := append(append([]entrySnap{}, outC.entries...), outD.entries...)
-	compareEntries(t, input, in.entries, all)
+	same := compareEntries(t, input, in.entries, all)
 
-	// (4) totals
-	if outC.totalCredit+outD.totalCredit != in.totalCredit || outC.totalDebit+outD.totalDebit != in.totalDebit {
+	// (4) totals (a mere consequence when entries were lost or added)
+	if same && (outC.totalCredit+outD.totalCredit != in.totalCredit || outC.totalDebit+outD.totalDebit != in.totalDebit) {
 		t.Fail("C11/totals-do-not-add-up", "file control totals of the outputs do not add up to the input's", input,
 			fmt.Sprintf("credit file: debit=%d credit=%d; debit file: debit=%d credit=%d", outC.totalDebit, outC.totalCredit, outD.totalDebit, outD.totalCredit),
 			fmt.Sprintf("debit=%d credit=%d", in.totalDebit, in.totalCredit))
@@ -660,7 +665,7 @@ func count(es []entrySnap, key func(entrySnap) string) map[string]int {
 	return m
 }
 
-func compareEntries(t *T, input map[string]any, in, out []entrySnap) {
+func compareEntries(t *T, input map[string]any, in, out []entrySnap) bool {
 	byRec := func(e entrySnap) string { return e.kind + "\x00" + e.masked }
 	a, b := count(in, byRec), count(out, byRec)
 	equal := true
@@ -706,7 +711,7 @@ func compareEntries(t *T, input map[string]any, in, out []entrySnap) {
 			"the same multiset of entries with their addenda (trace and sequence numbers masked with #)")
 	}
 	if !equal {
-		return
+		return false
 	}
 	// batch identification: every entry must sit in a batch carrying the
 	// identification of the batch it came from.
@@ -740,4 +745,5 @@ func compareEntries(t *T, input map[string]any, in, out []entrySnap) {
 			}
 		}
 	}
+	return true
 }
